@@ -444,8 +444,8 @@ def chain_message(n, end, labelled):
     return struct.pack("!HHHHHH", 1, 0x0100, 1, 0, 0, 0) + struct.pack("!H", 0xC000 | base) + b"\x00\x01\x00\x01" + bytes(body)
 
 
-def b_chain_cases():
-    for n in CHAIN_N:
+def b_chain_cases(thorough):
+    for n in (CHAIN_N if thorough else CHAIN_N[:-1]):
         for end in ("root", "loop-first", "loop-self", "label"):
             for labelled in (False, True):
                 if 18 + n * (4 if labelled else 2) > 0x3FFF:
@@ -454,7 +454,8 @@ def b_chain_cases():
 
 
 ODD_LABELS = [b"a", b"A", b"a.b", b".", b"a.", b".a", b"xn--bcher-kva", b"xn--BCHER-kva", b"XN--bcher-kva", b"xn--a", b"xn--",
-              b"\xe9", b"a b", b"\x00", b"-", b"*", b"a" * 63, b"xn--" + b"a" * 59]
+              b"\xe9", b"a b", b"\x00", b"-", b"*", b"a" * 63, b"xn--" + b"a" * 59,
+              b"a" * 64, b"a" * 65]  # the last two carry the length octets 0x40/0x41: reserved label types, not labels
 
 
 def b_name_cases(thorough):
@@ -488,10 +489,10 @@ def b_name_cases(thorough):
                 yield ("names", msg)
 
 
-def b_big_cases():
+def b_big_cases(thorough):
     hdr = struct.pack("!HHHHHH", 1, 0x8180, 1, 1, 0, 0) + R.wire_name(AB) + b"\x00\x10\x00\x01"
-    for ty in (16, 1, 5):
-        for fill in (b"\xc0", b"\xc0\x0c", b"\xff", b"\x3f"):
+    for ty in ((16, 1, 5) if thorough else (16,)):
+        for fill in ((b"\xc0", b"\xc0\x0c", b"\xff", b"\x3f") if thorough else (b"\xc0\x0c", b"\xff")):
             rd = (fill * 65535)[:65535 - len(hdr) - 12]
             yield ("big", hdr + b"\xc0\x0c" + struct.pack("!HHIH", ty, 1, 60, len(rd)) + rd)
     # many records, all owners compressed to the question
@@ -622,8 +623,8 @@ def all_cases(thorough):
     for c in a_multi_record_cases(thorough):
         yield c
     seen = set()
-    gens = [b_trunc_subst_cases(thorough), b_ptr_cases(thorough), b_tiny_cases(6 if thorough else 4), b_chain_cases(),
-            b_name_cases(thorough), b_big_cases()]
+    gens = [b_trunc_subst_cases(thorough), b_ptr_cases(thorough), b_tiny_cases(6 if thorough else 4), b_chain_cases(thorough),
+            b_name_cases(thorough), b_big_cases(thorough)]
     for g in gens:
         for fam, b in g:
             if b in seen:
@@ -642,13 +643,15 @@ def run(ctx):
                   "records": "1 per section in full; pairs over %s; triples in thorough" % ("3 names x 6 types x 4 kinds" if thorough else "2 names x 6 types x 4 kinds")},
         "partB": {"base_messages": 6, "substitution_values": 256 if thorough else list(SUBST6), "pointer_targets": "all 2^14" if thorough else "0..len+3, 0x100, 0x3fff",
                   "pointer_positions": "1, 2" + (", 3 at once" if thorough else " at once"), "tiny_strings": "len<=%d over 00,01,c0,0c,ff x counts{0,1}^4" % (6 if thorough else 4),
-                  "chain_hops": list(CHAIN_N), "odd_labels": len(ODD_LABELS)},
+                  "chain_hops": list(CHAIN_N if thorough else CHAIN_N[:-1]), "odd_labels": len(ODD_LABELS)},
         "step_budget_lines": "20000 + 2000 * len(input)",
     }
     cases = list(all_cases(thorough))
     ctx.log("enumerated %d cases" % len(cases))
     ratios = []
-    for r in par.pmap(chunk, cases, nchunks=par.NPROC * 8):
+    # quick: a few workers only - the whole quick tier is ~20 s of CPU and worker start-up is not free
+    nproc = par.NPROC if thorough else min(4, par.NPROC)
+    for r in par.pmap(chunk, cases, nchunks=nproc * 4, nproc=nproc):
         ratios.append(getattr(r, "lines_ratio", 0.0))
         ctx.tally.merge(r)
     ctx.info["max_lines_per_input_octet"] = round(max(ratios) if ratios else 0.0, 1)
